@@ -616,6 +616,11 @@ class StubRtpTransport:
 
     async def _send_rtp(self, data):
         self.world.on_rtcp_out(bytes(data))
+        d = self.world.cfg.get("send_suspend", 0.0)
+        if d:
+            # the transport's send suspends (TURN-like): packets keep arriving meanwhile
+            self.world.faults["rtcp_send_suspended"] += 1
+            await asyncio.sleep(d)
 
 
 def gen_stats(ch, spec):
@@ -630,6 +635,13 @@ def gen_stats(ch, spec):
     cfg["net"] = random_profile(ch, "cfg", intensity=ch.choice("cfg", [0.0, 0.05, 0.2, 0.5])).to_json()
     cfg["rtcp_ssrc"] = ch.randint("cfg", 1, 0xFFFFFFFF, 99)
     cfg["sr"] = ch.chance("cfg", 0.5)
+    # video: a retransmission stream next to each media stream (its packets are counted under its own SSRC), and
+    # packets whose codec payload cannot be parsed (received all the same)
+    cfg["rtx"] = cfg["kind"] == "video" and ch.chance("cfg", 0.5)
+    for s_ in cfg["streams"]:
+        s_["rtx_ssrc"] = (s_["ssrc"] ^ 0x55555555) or 5
+        s_["rtx_seq0"] = origin16(ch, origin)
+    cfg["send_suspend"] = ch.choice("cfg", [0.0, 0.0, 0.0, 0.05, 0.5, 2.0])
     n = ch.choice("wl", [3, 8, 20, 40])
     # a share of histories is made of hundreds of forward jumps: dozens of sequence cycles and a cumulative
     # loss beyond what the 24-bit field can hold (the clamp)
@@ -649,8 +661,12 @@ def gen_stats(ch, spec):
               "ts_step": ch.choice("wl", [0, 160, 960, 3000, 90000, 1 << 24])}
         if jumpy and r >= 12:
             op.update(frames=ch.choice("wl", [1, 3, 10]), per=1, dt=0.0)
+        if cfg["kind"] == "video":
+            op["bad_every"] = ch.choice("wl", [0, 0, 0, 3, 7])
         if r < 12:
             op = {"k": "seqjump", "stream": op["stream"], "by": ch.choice("wl", [1, 10, 1000, 20000, 32000] + ([32000] * 6 if jumpy else []))}
+        elif cfg["rtx"] and 36 <= r < 44:
+            op = {"k": "rtx", "stream": op["stream"], "count": ch.choice("wl", [1, 3, 10]), "dt": ch.choice("wl", [0.0, 0.02])}
         elif r < 20:
             op = {"k": "clock", "by": ch.choice("wl", [-7200.0, -30.0, -0.5, 0.5, 30.0, 3600.0, 10000.0])}
         elif r < 26:
@@ -734,7 +750,7 @@ class StatsWorld(BaseWorld):
         self.link = Link(self.loop, ch, "net.s2r", self.on_arrival, self.ctx["R"], Profile.from_json(cfg["net"]))
         self.queue = asyncio.Queue()
         self.ref = {}
-        self.streams = [dict(s, seq=s["seq0"], ts=s["ts0"], sent=0) for s in cfg["streams"]]
+        self.streams = [dict(s, seq=s["seq0"], ts=s["ts0"], sent=0, rtx_seq=s.get("rtx_seq0", 0)) for s in cfg["streams"]]
         self.pkts = []
         self.dead = False
         self.rr_seen = 0
@@ -758,7 +774,8 @@ class StatsWorld(BaseWorld):
                             break
                         total += 1
                         idx = len(self.pkts)
-                        self.pkts.append((st["ssrc"], st["seq"], st["ts"], pt))
+                        bad = bool(op.get("bad_every")) and (total % op["bad_every"] == 0)
+                        self.pkts.append((st["ssrc"], st["seq"], st["ts"], pt, "bad" if bad else "ok", None))
                         st["seq"] = (st["seq"] + 1) & 0xFFFF
                         st["sent"] += 1
                         self.link.send(struct.pack("!I", idx))
@@ -767,6 +784,17 @@ class StatsWorld(BaseWorld):
                         await asyncio.sleep(op["dt"])
                 if st["sent"] > 65536:
                     self.probes["stream_longer_than_a_cycle"] += 1
+            elif k == "rtx":
+                st = self.streams[op["stream"]]
+                for j in range(op["count"]):
+                    idx = len(self.pkts)
+                    osn = (st["seq"] - 1 - j) & 0xFFFF
+                    self.pkts.append((st["rtx_ssrc"], st["rtx_seq"], st["ts"], 97, "rtx", osn))
+                    st["rtx_seq"] = (st["rtx_seq"] + 1) & 0xFFFF
+                    self.link.send(struct.pack("!I", idx))
+                    self.probes["rtx_packets_sent"] += 1
+                if op.get("dt"):
+                    await asyncio.sleep(op["dt"])
             elif k == "seqjump":
                 st = self.streams[op["stream"]]
                 st["seq"] = (st["seq"] + op["by"]) & 0xFFFF
@@ -803,8 +831,13 @@ class StatsWorld(BaseWorld):
             if item[0] == "getstats":
                 await self.check_getstats()
                 continue
-            ssrc, seq, ts, pt = self.pkts[item[1]]
+            ssrc, seq, ts, pt, pkind, osn = self.pkts[item[1]]
             payload = b"\x10" + struct.pack("!I", item[1]) if cfg["kind"] == "video" else b"\x01\x02\x03"
+            if pkind == "bad":
+                payload = b"\x80"          # a VP8 descriptor that announces an extension byte and ends
+                self.probes["unparsable_payloads"] += 1
+            elif pkind == "rtx":
+                payload = struct.pack("!H", osn) + payload
             pkt = aiortc.rtp.RtpPacket(payload_type=pt, sequence_number=seq, timestamp=ts, ssrc=ssrc,
                                        payload=payload)
             arrival = int(time.time() * cfg["clockrate"])
@@ -866,7 +899,8 @@ class StatsWorld(BaseWorld):
                 got = {"fraction_lost": frac, "packets_lost": lost, "highest_sequence": highest, "jitter": jitter}
                 if self.cfg.get("normalise"):
                     # C17 differential runs: sequence fields relative to the stream's origin
-                    seq0 = next(s["seq0"] for s in self.cfg["streams"] if s["ssrc"] == ssrc)
+                    seq0 = next((s["seq0"] if s["ssrc"] == ssrc else s["rtx_seq0"]) for s in self.cfg["streams"]
+                                if ssrc in (s["ssrc"], s.get("rtx_ssrc")))
                     rel = ((highest - ref.base) & 0xFFFFFFFF) + ((ref.base - seq0) & 0xFFFF)
                     self.log.add("rr", ssrc, tuple(sorted(dict(got, highest_sequence=rel).items())))
                 else:
@@ -910,8 +944,15 @@ class StatsWorld(BaseWorld):
             codec = RTCRtpCodecParameters(mimeType="audio/opus" if cfg["clockrate"] == 48000 else "audio/PCMU",
                                           clockRate=cfg["clockrate"], channels=2 if cfg["clockrate"] == 48000 else 1,
                                           payloadType=111)
-        params = RTCRtpReceiveParameters(codecs=[codec], encodings=[
-            RTCRtpDecodingParameters(ssrc=s["ssrc"], payloadType=codec.payloadType) for s in cfg["streams"]])
+        codecs = [codec]
+        if cfg.get("rtx"):
+            from aiortc.rtcrtpparameters import RTCRtpRtxParameters
+            codecs.append(RTCRtpCodecParameters(mimeType="video/rtx", clockRate=90000, payloadType=97, parameters={"apt": 96}))
+            encodings = [RTCRtpDecodingParameters(ssrc=s["ssrc"], payloadType=codec.payloadType,
+                                                  rtx=RTCRtpRtxParameters(ssrc=s["rtx_ssrc"])) for s in cfg["streams"]]
+        else:
+            encodings = [RTCRtpDecodingParameters(ssrc=s["ssrc"], payloadType=codec.payloadType) for s in cfg["streams"]]
+        params = RTCRtpReceiveParameters(codecs=codecs, encodings=encodings)
 
         async def start():
             await self.receiver.receive(params)
